@@ -7,7 +7,7 @@ from pbt.common import Result, cut
 
 ID = "C07"
 LEVEL = "exploration"
-TOL = {"factor_on_requested_tolerance": 10.0, "rounding_floor_rel": 2e-10}
+TOL = {"factor_on_requested_tolerance": 10.0, "rounding_floor_rel": 2e-13}
 RULE = ("operators of the three classes the emulators exponentiate: -i*dt*H (H Hermitian: dense random, banded, "
         "degenerate, block-diagonal with invariant subspaces so that happy breakdown occurs, Rydberg-like diagonal+"
         "flip structure, blockade-like = widely spread diagonal with weak flips and v = basis state + small amplitudes on high-energy states), -i*dt*(H - iG/2) with G PSD, dt*Lindbladian of small random open systems; dimension 1..256, "
@@ -47,7 +47,8 @@ def _cases(draw):
     return {
         "cls": cls, "dim": dim, "struct": struct,
         "offdiag": 10.0 ** draw(st.integers(-5, -1)), "hi_amp": 10.0 ** draw(st.integers(-6, -2)),
-        "norm": draw(st.one_of(st.sampled_from([1.0, 10.0, 0.1]), st.floats(1e-3, 60.0))),
+        # |A| = dt*|H|: short steps under weak drives give 1e-3..5e-2, long steps under strong interactions up to 60
+        "norm": draw(st.one_of(st.sampled_from([1.0, 10.0, 0.1, 0.03, 0.045]), st.floats(1e-3, 60.0), st.floats(1e-3, 0.06).map(lambda x: round(x, 5)))),
         "vkind": draw(st.sampled_from(vkinds)),
         "vnorm": draw(st.sampled_from([1.0, 1.0, 1e-3, 37.5, 1e4])),
         "tol": 10.0 ** draw(st.integers(-12, -4)),
@@ -190,7 +191,7 @@ def check_case(case) -> Result:
               exp_tolerance=tol, norm_tolerance=tol, max_krylov_dim=kdim)
     vn = np.linalg.norm(v)
     err = np.linalg.norm(res.result.numpy() - exact)
-    bound = TOL["factor_on_requested_tolerance"] * tol * vn + TOL["rounding_floor_rel"] * vn
+    bound = TOL["factor_on_requested_tolerance"] * tol * vn + TOL["rounding_floor_rel"] * max(1.0, case["norm"]) * vn
     r.info = {"err_over_tol": float(err / (tol * vn)), "iters": res.iteration_count, "converged": bool(res.converged)}
     if res.iteration_count > kdim:
         r.fail("iteration_count_exceeds_max", f"{res.iteration_count} > {kdim}")
@@ -202,13 +203,21 @@ def check_case(case) -> Result:
         r.label("converged")
         if not err <= bound:
             kind = "converged_but_inaccurate"
-            if res.happy_breakdown:
+            from pbt.oracles import krylov_model
+
+            # a fully faithful numpy model of the implementation (same stopping rule, the projected exponential
+            # computed with torch.linalg.matrix_exp as the implementation does) against the same model with an accurate
+            # exponential: if the first reproduces the result and the second meets the bound, the whole deviation is the
+            # accuracy of torch.linalg.matrix_exp on the small projected matrix
+            faithful = krylov_model.krylov_exp_prev_norm(A, v, tol, max_dim=kdim, hermitian=herm_flag, expm=krylov_model.torch_expm)[0]
+            clean = krylov_model.krylov_exp_prev_norm(A, v, tol, max_dim=kdim, hermitian=herm_flag)[0]
+            if np.linalg.norm(res.result.numpy() - faithful) <= 0.01 * err and np.linalg.norm(clean - exact) <= bound:
+                kind += ":torch_matrix_exp_accuracy"
+            elif res.happy_breakdown:
                 kind += ":breakdown"
             else:
                 # would the reference (Expokit) estimate, with the norm of A applied to the newest Krylov vector,
                 # have accepted this order?  If not, this is the known stopping-rule finding.
-                from pbt.oracles import krylov_model
-
                 est = krylov_model.expokit_estimate(A, v, res.iteration_count)
                 if est >= tol:
                     kind += ":estimate_uses_previous_vector_norm"
